@@ -240,7 +240,7 @@ CLAUSES = [
     Clause('three-node-graphs', check_graph, kind='exhaustive', enumerate=_enum_three,
            space='all 3-node graphs over the reduced alphabet (8 variants per node) x all 2^9 edge sets x all 6 node orders (quick tier: every 8th graph only)'),
     Clause('random-graphs', check_graph, kind='random', strategy=random_cases,
-           budget={'quick': 12000, 'thorough': 150000}),
+           budget={'quick': 12000, 'thorough': 450000}),
     Clause('generated-graphs', check_generated, kind='random', strategy=generated_cases,
-           budget={'quick': 2000, 'thorough': 20000}),
+           budget={'quick': 2000, 'thorough': 60000}),
 ]
